@@ -95,6 +95,22 @@ Theorem C11_layout_be : forall t buf i,
   load t true buf i = Some (be_value buf (i * nbytes t) (nbytes t)).
 Proof. exact layout_be. Qed.
 
+(* what store writes, as closed forms: the field [lo, lo + bits) of the pixel's byte is replaced by v (sub-byte);
+   byte k of the pixel is the k-th least significant byte of v (little endian) / the k-th most significant (big endian) *)
+Theorem C11_store_writes_sub : forall t (alt : order) v buf i,
+  sub_byte t -> bytes_ok buf -> raw_ok t v -> 0 <= i < pixels_total t (buf_len buf) ->
+  let lo := if alt then (i mod ppb t) * bits t else 8 - (i mod ppb t + 1) * bits t in
+  let b := byte_at buf (i / ppb t) in
+  byte_at (fst (store t alt v buf i)) (i / ppb t) = b - ((b / 2 ^ lo) mod 2 ^ bits t) * 2 ^ lo + v * 2 ^ lo.
+Proof. exact store_writes_sub. Qed.
+
+Theorem C11_store_writes_whole : forall t (alt : order) v buf i k,
+  whole_bytes t -> bytes_ok buf -> len_ok buf -> raw_ok t v -> 0 <= i < pixels_total t (buf_len buf) ->
+  0 <= k < nbytes t ->
+  byte_at (fst (store t alt v buf i)) (i * nbytes t + k) =
+  (v / 256 ^ (if alt then nbytes t - 1 - k else k)) mod 256.
+Proof. exact store_writes_whole. Qed.
+
 (* the iterator driven to its first None yields load(index), load(index+1), ... up to the pixel count;
    the fuel of the model's iter_list never runs out *)
 Theorem C11_iter_is_loads : forall t alt s,
